@@ -5,6 +5,14 @@ pub mod host;
 pub mod report;
 pub mod rng;
 
+pub mod refqual;
+pub mod refz80;
+pub mod z80diff;
+pub mod z80work;
+
+mod c01;
+mod c02;
+mod c03;
 mod c17;
 
 use report::{Ctx, Evidence, Tier};
@@ -39,7 +47,13 @@ pub fn last_panic() -> String {
 type CheckFn = fn(&Ctx) -> Evidence;
 
 fn checks() -> Vec<(&'static str, CheckFn)> {
-    vec![("C17", c17::run as CheckFn)]
+    vec![
+        ("C01", c01::run as CheckFn),
+        ("C02", c02::run as CheckFn),
+        ("C03", c03::run as CheckFn),
+        ("C17", c17::run as CheckFn),
+        ("REFQUAL", refqual::run as CheckFn),
+    ]
 }
 
 fn main() {
